@@ -4,7 +4,9 @@ W="${1:-/repo}"; HERE="$(cd "$(dirname "$0")" && pwd)"
 TMP="$(mktemp -d /tmp/c02ov.XXXXXX)" || exit 2
 trap 'rm -rf "$TMP"' EXIT
 mpicc -g -O0 -I"$W/src/include" -o "$TMP/ov" "$HERE/overlap_reads.c" "$W/src/libs/.libs/libpnetcdf.a" -lm || exit 2
+# ROMIO is selected because Open MPI 4.1.4's OMPIO returns zeros for the tail of the last record in collective reads with
+# differing per-rank file views (seen with non-overlapping requests too, independent of this defect)
 for np in 1 3; do
-  timeout 300 mpiexec --allow-run-as-root --oversubscribe -n $np "$TMP/ov" "$TMP/t.nc" || exit 1
+  timeout 300 mpiexec --allow-run-as-root --oversubscribe --mca io romio321 -n $np "$TMP/ov" "$TMP/t.nc" || exit 1
 done
 exit 0
